@@ -21,6 +21,10 @@ variable {op : M → M → M} {e : M}
 theorem AggLaws.left_comm (h : AggLaws op e) (a b c : M) : op a (op b c) = op b (op a c) := by
   rw [← h.assoc, h.comm a b, h.assoc]
 
+omit [DecidableEq κ] in
+theorem sum_laws : AggLaws (fun a b : Int => a + b) 0 :=
+  ⟨fun a b c => Int.add_assoc a b c, fun a b => Int.add_comm a b, fun a => Int.add_zero a⟩
+
 @[simp] theorem aggM_nil : aggM op e [] = e := rfl
 @[simp] theorem aggM_cons (x : M) (xs : List M) : aggM op e (x :: xs) = op x (aggM op e xs) := rfl
 
